@@ -110,11 +110,30 @@ func runProperty(m *Model, o Options, prop string, pd PropDef, known *KnownFile,
 			cache[rn] = res
 		}
 		c := map[string]int{}
-		for _, ob := range res.Obls {
+		kept := res.Obls
+		if eps, scoped := pd.Scope[rn]; scoped {
+			kept = nil
+			names := m.scopeNames(eps)
+			for _, ob := range res.Obls {
+				in := strings.Contains(ob.Key, "instance-floor") || strings.Contains(ob.Key, "checker panic") || strings.Contains(ob.Key, "anchors")
+				for _, n := range names {
+					if strings.Contains(ob.Key, n) {
+						in = true
+					}
+				}
+				if in {
+					kept = append(kept, ob)
+				}
+			}
+		}
+		if _, scoped := pd.Scope[rn]; scoped && len(kept) == 0 {
+			kept = append(kept, &Obligation{Rule: rn, Key: rn + " / scope matched nothing", Pos: "-", Status: Undecided, St: Undecided.String(), Msg: "no obligation of this rule concerns the functions reachable from " + strings.Join(pd.Scope[rn], ", ") + ": the rule no longer recognises the code this property is about"})
+		}
+		for _, ob := range kept {
 			c[ob.Status.String()]++
 		}
 		perRule[rn] = c
-		obls = append(obls, res.Obls...)
+		obls = append(obls, kept...)
 		fmt.Printf("   %-16s obligations=%d ok=%d violation=%d undecided=%d\n", rn, c["ok"]+c["VIOLATION"]+c["UNDECIDED"], c["ok"], c["VIOLATION"], c["UNDECIDED"])
 	}
 	// anchors that could not be resolved fail every property that runs any rule
@@ -259,4 +278,23 @@ func explain(m *Model, o Options) int {
 		fmt.Printf("obligation %q no longer exists on the current tree (recorded at %s: %s)\n", rec.Key, rec.Pos, rec.Msg)
 	}
 	return 0
+}
+
+// scopeNames: display names of the functions reachable from the named entry points.
+func (m *Model) scopeNames(entryPoints []string) []string {
+	var out []string
+	if m.A.CollectionType == nil {
+		return out
+	}
+	for _, ep := range entryPoints {
+		fn := m.lookupMethod(m.A.CollectionType.Obj().Name(), ep)
+		if fn == nil {
+			continue
+		}
+		out = append(out, ep+" ")
+		for f := range m.reachableLocal(fn) {
+			out = append(out, m.declName(f)+" ")
+		}
+	}
+	return out
 }
